@@ -10,7 +10,8 @@ for d in $HERE/seeded/C*/; do
   id=$(basename $d)
   [ -f $d/patch.diff ] || continue
   log=$OUT/$id.log
-  "$HERE/bin/with_patch" $d/patch.diff $id > $log 2>&1
+  prop=${id%%_*}
+  "$HERE/bin/with_patch" $d/patch.diff $prop > $log 2>&1
   rc=$(grep -o 'exit=[0-9]*' $log | tail -1 | cut -d= -f2)
   nviol=$(grep -c '^VIOLATION' $log)
   nund=$(grep -c '^UNDECIDED' $log)
